@@ -16,7 +16,7 @@ def run(rep, tier):
         "residual measured componentwise: |b - A x|_i <= 1e-11 * (|A||x| + |b|)_i with A the exact table",
         "instances down to the smallest grids the hierarchy produces (nr = 5, ntheta = 4); larger grids with fill-in: real-geometry run",
     ]
-    tabs = sc.tables(rep, tier, "c04", "ac")
+    tabs = sc.tables(rep, tier, "c04", "ace")
     sc.conformance(rep, tier, tabs, "direct", 200, "direct", threads=(1, 3, 16) if tier == "thorough" else (1, 3), scales=(1.0, 1e-9, 1e-13, 1e7))
     try:
         import realgeom
